@@ -318,7 +318,7 @@ Section Term.
           * rewrite no_resolver. unfold mkerr. exact I.
           * rewrite no_resolver. unfold mkerr. exact I.
           * exfalso. apply NC. reflexivity.
-          * unfold mkerr. exact I.
+          * rewrite no_resolver. unfold mkerr. exact I.
           * rewrite (NO r0 eq_refl). exact I.
       - exfalso. apply (Hspl e). exists rt. split; assumption.
     Qed.
